@@ -280,9 +280,122 @@ pub fn tamper_mic_plain(m: &mut [u8], d: u8) {
     m[2] ^= d;
 }
 
+/// builder X — an UPLINK-typed data frame (MHDR 0x40 UnconfirmedDataUp / 0x80 ConfirmedDataUp) of this very session:
+/// DevAddr of the device, MIC and keystream with Dir = 0 under the session keys, built by the independent
+/// reference encoder at the counter `last + 1` (0..2 for the first frame) — i.e. above the last accepted downlink
+/// counter, so that ONLY the direction makes it invalid for the device.  It carries what a stack would react
+/// to if it took it for a downlink: MAC commands in FOpts, or a small application payload (≤ 15 octets in all,
+/// so that it fits every data rate), or port-0 commands; one in six is longer than small data rates allow.
+pub fn uplink_typed_frame(rng: &mut Rng, devaddr: u32, nwk: &[u8; 16], app: &[u8; 16], region: &str, last: Option<u32>) -> (Vec<u8>, u32) {
+    let fcnt = match last {
+        Some(l) => l.wrapping_add(1),
+        None => rng.below(3) as u32,
+    };
+    let mut d = DownDesc::new(devaddr, fcnt);
+    d.nwk = *nwk;
+    d.app = *app;
+    d.uplink_type = true;
+    d.confirmed = rng.chance(1, 2);
+    d.ack = rng.chance(1, 4);
+    match rng.below(4) {
+        0 => d.fopts = rx_timing_setup_req(1 + rng.below(14) as u8),
+        1 => d.fopts = some_cmds(rng, region, 3),
+        2 => {
+            d.fport = Some(0);
+            d.payload = dev_status_req();
+        }
+        _ => {
+            d.fport = Some(1 + rng.below(200) as u8);
+            d.payload = vec![0xec, 0x40];
+        }
+    }
+    if rng.chance(1, 6) {
+        // now and then longer than the window's data rate allows: an uplink-typed frame is ignored BEFORE the size
+        // test (it does not end the receive procedure the way an oversized downlink does)
+        d.fopts = vec![];
+        d.fport = Some(1 + rng.below(200) as u8);
+        let n = *rng.pick(&[20usize, 60, 130, 238]);
+        d.payload = rng.bytes(n);
+    }
+    (d.build().expect("uplink-typed frame"), fcnt)
+}
+
+/// builder X — the device's own last uplink as it went on the air (live histories only)
+pub fn own_last_uplink(h: &Hist) -> Option<Vec<u8>> {
+    let f = h.live.as_ref()?.last_tx.as_ref()?.frame.to_vec();
+    // a data uplink, not a JoinRequest
+    if f.len() >= 12 && matches!(f[0] >> 5, 2 | 4) {
+        Some(f)
+    } else {
+        None
+    }
+}
+
+/// builder X — histories around uplink-typed frames (class `uplink-echo`): a session (ABP, or restored with the
+/// downlink counter below / far below the uplink counter), an uplink, then in window `w` (rx1 | rx2 | rxc after the
+/// procedure) the device's OWN uplink echoed back octet for octet and/or an uplink-typed frame of the session
+/// rebuilt at the next fresh downlink counter; a snapshot; then the authentic DOWNLINK with that very counter
+/// (it must still be fresh: the uplink-typed frame consumed nothing), a snapshot, and one more uplink.
+pub fn uplink_echo_history(suite: &str, rng: &mut Rng, region: &str, k: usize) -> String {
+    let mut h = Hist::new(suite, region, *rng.pick(&[14u8, 20]), 0, rng.next() & 0xffff, &[], None);
+    h.go_live();
+    match k % 4 {
+        0 => {
+            h.abp();
+        }
+        1 => {
+            h.sess(7 + rng.below(100) as u32, Some(rng.below(5) as u32), 0, false, &[], false);
+        }
+        2 => {
+            h.sess(0x1_0003, Some(0xfff0 + rng.below(8) as u32), 0, k % 8 == 2, &[], false);
+        }
+        _ => {
+            h.sess(20 + rng.below(40) as u32, None, 0, false, &[], false);
+        }
+    }
+    h.snap();
+    let w = ["rx1", "rx2", "rxc"][(k / 4) % 3];
+    let conf = k % 7 == 3;
+    h.send(1 + rng.below(200) as u8, conf, &[0xe0, k as u8]);
+    if w == "rxc" {
+        h.timeout();
+    }
+    let variant = k % 3;
+    if variant != 1 {
+        if let Some(own) = own_last_uplink(&h) {
+            h.rx_bytes(w, rng.range(-10, 10) as i8, &own, None);
+        }
+    }
+    if variant != 0 && !h.dead {
+        let (b, f) = uplink_typed_frame(rng, h.devaddr, &h.nwk, &h.app, region, h.last_down);
+        h.rx_bytes(w, rng.range(-10, 10) as i8, &b, Some(f));
+    }
+    h.snap();
+    if !h.dead {
+        // the authentic downlink at the next fresh counter is still accepted
+        let w2 = if w == "rx1" { "rx2" } else { w };
+        h.rx_auth(w2, 2, 1, false, &rx_timing_setup_req(5), None, &[]);
+        h.snap();
+        h.send(2, false, &[0xe1]).timeout().snap();
+    }
+    h.done()
+}
+
 pub fn rejected_frame(rng: &mut Rng, h: &Hist) -> (Vec<u8>, Option<u32>, &'static str) {
     let last = h.last_down;
-    match rng.below(10) {
+    match rng.below(11) {
+        10 => {
+            // builder X — an uplink-typed frame of this session: the device's own last uplink echoed back octet
+            // for octet, or one rebuilt at the next fresh downlink counter (Dir = 0 MIC under the session key):
+            // not a frame for an end-device, whatever its MIC
+            if rng.chance(1, 2) {
+                if let Some(own) = own_last_uplink(h) {
+                    return (own, None, "rej-uplink-echo");
+                }
+            }
+            let (b, f) = uplink_typed_frame(rng, h.devaddr, &h.nwk, &h.app, &h.region, last);
+            (b, Some(f), "rej-uplink-echo")
+        }
         0 => ({ let n = rng.below(40) as usize; rng.bytes(n) }, None, "rej-random"),
         8 => {
             // a frame that verifies at the next fresh counter but whose FOptsLen claims 1..3 octets more
@@ -319,7 +432,9 @@ pub fn rejected_frame(rng: &mut Rng, h: &Hist) -> (Vec<u8>, Option<u32>, &'stati
                 d.payload = vec![4, 5];
             }
             let mut b = d.build().unwrap();
-            b[0] = *rng.pick(&[0x61u8, 0x62, 0x63, 0xa1, 0xa3, 0xe0, 0xc0, 0x20, 0x00]);
+            // (builder X: 0x40 / 0x80 — an uplink MType over a frame MIC'd as a downlink, Dir = 1; the Dir = 0
+            // variant is class rej-uplink-echo)
+            b[0] = *rng.pick(&[0x61u8, 0x62, 0x63, 0xa1, 0xa3, 0xe0, 0xc0, 0x20, 0x00, 0x40, 0x80]);
             let n = b.len() - 4;
             let mic = crate::refcodec::data_mic(&h.nwk, &b[..n], 1, &b[1..5], fcnt);
             b[n..].copy_from_slice(&mic);
